@@ -346,12 +346,49 @@ fn seq_strategy(max_ops: usize) -> impl Strategy<Value = Vec<Op>> {
                     bounds.push(*b);
                 }
                 Op::InsertRanges(l) => {
+                    if l.len() <= 6 && !bounds.is_empty() {
+                        // anchor the inserted list on earlier boundaries as well
+                        let mut l2: Vec<(u32, u32, u8)> = vec![];
+                        for (a, b, v) in l.iter() {
+                            let (mut a, mut b) = (*a, *b);
+                            snap(&mut a, &bounds);
+                            snap(&mut b, &bounds);
+                            l2.push((a.min(b), a.max(b), *v));
+                        }
+                        l2.sort();
+                        let mut out: Vec<(u32, u32, u8)> = vec![];
+                        for (a, b, v) in l2 {
+                            match out.last() {
+                                Some(x) if x.1 >= a => {}
+                                _ => out.push((a, b, v)),
+                            }
+                        }
+                        *l = out;
+                    }
                     for (a, b, _) in l.iter() {
                         bounds.push(*a);
                         bounds.push(*b);
                     }
                 }
                 Op::Remove(l) => {
+                    if l.len() >= 2 && l.len() <= 6 && !bounds.is_empty() {
+                        let mut l2: Vec<(u32, u32)> = vec![];
+                        for (a, b) in l.iter() {
+                            let (mut a, mut b) = (*a, *b);
+                            snap(&mut a, &bounds);
+                            snap(&mut b, &bounds);
+                            l2.push((a.min(b), a.max(b)));
+                        }
+                        l2.sort();
+                        let mut out: Vec<(u32, u32)> = vec![];
+                        for (a, b) in l2 {
+                            match out.last() {
+                                Some(x) if x.1 >= a => {}
+                                _ => out.push((a, b)),
+                            }
+                        }
+                        *l = out;
+                    }
                     if l.len() == 1 {
                         let (mut a, mut b) = l[0];
                         snap(&mut a, &bounds);
@@ -368,6 +405,98 @@ fn seq_strategy(max_ops: usize) -> impl Strategy<Value = Vec<Op>> {
                 }
             }
         }
+        ops
+    })
+}
+
+/// A map with 32-300 pieces (small gaps, short pieces, a random base) built by one
+/// `insert_ranges`, followed by a few operations anchored on its boundaries: code paths that
+/// depend on the size of the map (bulk copies, in-place splicing, binary search) are reached.
+fn big_seq_strategy() -> impl Strategy<Value = Vec<Op>> {
+    let base = prop_oneof![Just(0u32), Just(0x30u32), Just(0xD700u32), Just(0xE000u32), 0u32..0x2000, Just(MAXC - 3000)];
+    let pieces = proptest::collection::vec((1u32..=6, 0u32..=4, 0u8..3), 32..300);
+    (base, pieces, seq_strategy(5), proptest::collection::vec(any::<u32>(), 24)).prop_map(|(base, pieces, mut tail, tw)| {
+        let mut x = base;
+        let mut big: Vec<(u32, u32, u8)> = vec![];
+        for (gap, len, v) in pieces {
+            let a = x + gap;
+            let b = a + len;
+            if b >= MAXC {
+                break;
+            }
+            big.push((a, b, v));
+            x = b;
+        }
+        // re-anchor the end points of the following operations on pieces of the big map
+        let n = big.len().max(1);
+        let mut ti = 0usize;
+        let mut anchor = |x: &mut u32| {
+            let t = tw[ti % tw.len()];
+            ti += 1;
+            if t % 4 != 0 && !big.is_empty() {
+                let p = big[(t as usize / 4) % n];
+                let e = if (t >> 12) % 2 == 0 { p.0 } else { p.1 };
+                *x = match (t >> 16) % 3 {
+                    0 => e,
+                    1 => e.saturating_sub(1),
+                    _ => (e + 1).min(MAXC),
+                };
+            }
+        };
+        for op in tail.iter_mut() {
+            match op {
+                Op::Insert(a, b, _) => {
+                    anchor(a);
+                    anchor(b);
+                    if a > b {
+                        std::mem::swap(a, b);
+                    }
+                }
+                Op::Remove(l) if l.len() <= 6 => {
+                    let mut l2: Vec<(u32, u32)> = l
+                        .iter()
+                        .map(|(a, b)| {
+                            let (mut a, mut b) = (*a, *b);
+                            anchor(&mut a);
+                            anchor(&mut b);
+                            (a.min(b), a.max(b))
+                        })
+                        .collect();
+                    l2.sort();
+                    let mut out: Vec<(u32, u32)> = vec![];
+                    for (a, b) in l2 {
+                        match out.last() {
+                            Some(x) if x.1 >= a => {}
+                            _ => out.push((a, b)),
+                        }
+                    }
+                    *l = out;
+                }
+                Op::InsertRanges(l) if l.len() <= 6 => {
+                    let mut l2: Vec<(u32, u32, u8)> = l
+                        .iter()
+                        .map(|(a, b, v)| {
+                            let (mut a, mut b) = (*a, *b);
+                            anchor(&mut a);
+                            anchor(&mut b);
+                            (a.min(b), a.max(b), *v)
+                        })
+                        .collect();
+                    l2.sort();
+                    let mut out: Vec<(u32, u32, u8)> = vec![];
+                    for (a, b, v) in l2 {
+                        match out.last() {
+                            Some(x) if x.1 >= a => {}
+                            _ => out.push((a, b, v)),
+                        }
+                    }
+                    *l = out;
+                }
+                _ => {}
+            }
+        }
+        let mut ops = vec![Op::InsertRanges(big)];
+        ops.extend(tail);
         ops
     })
 }
@@ -467,6 +596,44 @@ pub fn run(thorough: bool, seed: u64) -> String {
     if let Err(proptest::test_runner::TestError::Fail(reason, ops)) = res {
         violations.push(json!({"ops": ops.iter().map(op_json).collect::<Vec<_>>(), "universe_max": MAXC, "reason": reason.to_string()}));
     }
+    // (3) large maps
+    let big_cases: u32 = if thorough { 100_000 } else { 12_000 };
+    let cfg = Config {
+        cases: big_cases,
+        failure_persistence: None,
+        max_shrink_iters: 6000,
+        ..Config::default()
+    };
+    let mut runner = TestRunner::new_with_rng(cfg, TestRng::from_seed(RngAlgorithm::ChaCha, &crate::rng_seed(seed, "rangemap-big")));
+    let big_eval = std::cell::Cell::new(0u64);
+    if violations.is_empty() {
+        failed.set(false);
+        let res = runner.run(&big_seq_strategy(), |ops| {
+            if !failed.get() {
+                big_eval.set(big_eval.get() + 1);
+            }
+            match check(&ops, MAXC) {
+                Ok(nt) => {
+                    if nt && !failed.get() {
+                        use std::hash::{Hash, Hasher};
+                        let mut h = std::collections::hash_map::DefaultHasher::new();
+                        format!("{:?}", ops).hash(&mut h);
+                        rnd_nt.borrow_mut().insert(h.finish());
+                    }
+                    Ok(())
+                }
+                Err(e) => {
+                    failed.set(true);
+                    Err(TestCaseError::fail(e))
+                }
+            }
+        });
+        if let Err(proptest::test_runner::TestError::Fail(reason, ops)) = res {
+            violations.push(json!({"ops": ops.iter().map(op_json).collect::<Vec<_>>(), "universe_max": MAXC, "reason": reason.to_string()}));
+        }
+    }
+    let big_eval = big_eval.get();
+    evaluations += big_eval;
     let rnd_eval = rnd_eval.get();
     let rnd_nt = rnd_nt.into_inner();
     let rnd_samples = rnd_samples.into_inner();
@@ -480,6 +647,7 @@ pub fn run(thorough: bool, seed: u64) -> String {
         "exhaustive_sequences": exhaustive_count,
         "exhaustive_universe_max": u,
         "random_sequences": rnd_eval,
+        "large_map_sequences": big_eval,
         "samples": samples,
         "violations": violations,
     })
